@@ -19,6 +19,7 @@ from .core import Ctx
 from .kit import own_nodes, sub_nodes
 from .model import Func, unparse
 from .oblig import get_contracts
+from .textsum import apply_text_summaries
 
 
 class RaiseReach:
@@ -39,6 +40,7 @@ class RaiseReach:
         k = id(f)
         if k not in self._log:
             I = Interp(self.M, self.ctx.R, get_contracts(self.ctx), budget=256, depth=6, max_nodes=6000)
+            apply_text_summaries(self.ctx, I)
             try:
                 I.analyse(f)
             except RecursionError:
